@@ -1256,6 +1256,19 @@ def _run_allclose(
                 ),
             )
 
+        expected_class = _dtype_class(expected_arr)
+        got_class = _dtype_class(got_arr)
+        if expected_class != got_class:
+            # A model that answers with floats where fn returns integers (or with
+            # integers for booleans) deviates from fn even when the numbers are close:
+            # under a relative tolerance 1000.9 would pass for the integer 1000.
+            return (
+                False,
+                "Output {} dtype class mismatch (JAX {} vs ORT {})".format(
+                    idx, expected_arr.dtype, got_arr.dtype
+                ),
+            )
+
         if _is_floating_dtype(expected_arr) or _is_floating_dtype(got_arr):
             # Only align floating widths; never cast a floating model output to an
             # integer/bool reference dtype (that would truncate 1.9 to 1 and hide
@@ -1380,6 +1393,18 @@ def _to_numpy_output(value: Any) -> np.ndarray:
     if isinstance(value, np.ndarray):
         return value
     return cast(np.ndarray, np.asarray(value))
+
+
+def _dtype_class(arr: np.ndarray) -> str:
+    """bool / integer / floating (real or complex) / other."""
+    kind = arr.dtype.kind
+    if kind == "b":
+        return "bool"
+    if kind in "iu":
+        return "integer"
+    if kind in "fc" or _is_floating_dtype(arr):
+        return "floating"
+    return kind
 
 
 def _is_floating_dtype(arr: np.ndarray) -> bool:
